@@ -1,7 +1,7 @@
 """C17 — parameter transforms are invertible and compose in order.
 
 Rational normal forms for Denormalize (A7), fold order of Chain (A8), declared inverse pair exp/log, Identity,
-leafwise fill rule of Extend, where/replace structure of Shared.  Not decided: pytree surgery inside tree_extend /
+leafwise fill rule of Extend, where/replace structure of Shared.  Not decided: the jax / equinox pytree primitives used by tree_extend /
 eqx.filter, user lambdas of Shared, float rounding.
 """
 from __future__ import annotations
@@ -101,6 +101,25 @@ def run(chk: Check, model):
     want = T.mk_ite(T.eq(ext, T.NONE, numeric=False), S("self.base_params"), ext)
     chk.add("C17.pairs", "Extend.extend: base leaf exactly where the supplied leaf is None", rx.ret == want, f"extend = {T.show(rx.ret)[:200]}, expected leafwise (base if supplied is None else supplied) "
             "over tree_extend(base, params)", chk.loc(fx))
+    # structure of the pytree surgery (what is flattened with which treedef; the jax / equinox primitives themselves are H5)
+    ft, rt = _ret(model, "jax_utils.tree_extend")
+    tdef = T.mk_index(T.mk_call("jax.tree_util.tree_flatten", [S("tree_template")], [("is_leaf", S("is_leaf"))]), T.ONE)
+    want = T.mk_call("jax.tree_util.tree_unflatten", [tdef, T.mk_call("jax._src.api_util.flatten_axes", [T.const("tree_match"), tdef, S("tree")])])
+    got = rt.ret
+    if got[0] == "call" and len(got[2]) == 2 and got[2][1][0] == "call":  # ignore the call uid of flatten_axes
+        inner = got[2][1]
+        got = ("call", got[1], (got[2][0], ("call", inner[1], inner[2], inner[3], None)), got[3], None)
+    chk.add("C17.pairs", "tree_extend: the partial tree is flattened against, and rebuilt with, the template's tree definition", got == want,
+            f"tree_extend = {T.show(rt.ret)[:240]}", chk.loc(ft))
+    ff, rf = _ret(model, "base.Extend.filter")
+    mask_ex = T.mk_call("rex.jax_utils.tree_extend", [S("self.base_params"), S("self.mask")])
+    want = T.mk_call("jax.tree_util.tree_unflatten", [T.mk_index(T.mk_call("jax.tree_util.tree_flatten", [S("self.mask")]), T.ONE),
+                                                      T.mk_index(T.mk_call("jax.tree_util.tree_flatten", [T.mk_call("equinox.filter", [S("params_extended"), mask_ex])]), T.ZERO)])
+    chk.add("C17.pairs", "Extend.filter: keeps the leaves selected by the mask (extended to the base structure) and rebuilds the mask's structure", rf.ret == want,
+            f"filter = {T.show(rf.ret)[:240]}", chk.loc(ff))
+    fn_, rn = _ret(model, "base.Extend.init")
+    ok = rn.ret[0] == "obj" and dict(rn.ret[2]).get("base_params") == S("base_params") and dict(rn.ret[2]).get("mask") == T.mk_not(T.eq(S("opt_params"), T.NONE, numeric=False))
+    chk.add("C17.pairs", "Extend.init: mask marks exactly the supplied (non-None) leaves", bool(ok), f"init = {T.show(rn.ret)[:160]}", chk.loc(fn_))
     for name, tgt in (("apply", "extend"), ("inv", "filter")):
         fa, ra = _ret(model, f"base.Extend.{name}")
         chk.add("C17.pairs", f"Extend.{name} dispatches to {tgt}", T.call_name(ra.ret) == f"self.{tgt}" and ra.ret[2] == (p,), f"Extend.{name} = {T.show(ra.ret)[:80]}", chk.loc(fa))
